@@ -32,7 +32,7 @@ def bounds(tier):
 
 
 def goals(tier):
-    return ["triple:" + t["name"] for t in kitgen.TRIPLES] + ["chain-3", "empty-placeholder", "product-rotated", "next-level-assembly", "two-level", "inputs-in-another-container"]
+    return ["triple:" + t["name"] for t in kitgen.TRIPLES] + ["chain-3", "empty-placeholder", "product-rotated", "next-level-assembly", "two-level", "inputs-in-another-container", "vector-entity-reused-with-other-inserts"]
 
 
 _KEEP = []
@@ -131,6 +131,26 @@ def check(st, scn):
         st.violation("level", "level-product-differs-from-ligation-model", scn, gg[1], o.seq)
         return None
     prod = o.seq
+    if scn.get("reuse_vector") and t["outer"] != "ytk":
+        # the SAME vector entity takes other inserts that are filed under the same identifiers (variants of one design):
+        # what comes out must hold the inserts supplied now
+        words2 = WORDSETS[scn.get("variant", 0) % len(WORDSETS)][: scn["k"] + 1]
+        ms2, tg2 = [], []
+        for i in range(scn["k"]):
+            body2 = gen.word(scn["fill"] + i + 3, 11 + 7 * i, 3 + 2 * i + scn.get("variant", 0), kitgen.ALL_SITES)
+            m2 = kitgen.build_module(Mc, words2[i], words2[i + 1], body2, variant=scn.get("variant", 0) + i)
+            if m2 is None:
+                ms2 = None
+                break
+            ms2.append(Mc(gen.contained(m2, cont, "ins%d" % i)))
+            tg2.append(words2[i] + body2)
+        if ms2:
+            oB = asm.run_assemble(v, list(reversed(ms2)))
+            st.goal("vector-entity-reused-with-other-inserts")
+            if oB.kind != "product":
+                st.violation("level", "second-assembly-with-the-same-vector-entity-fails-" + str(oB.exc_name), scn, "product", oB.brief())
+            elif "".join(tg2).upper() not in (oB.seq + oB.seq).upper():
+                st.violation("level", "second-assembly-with-the-same-vector-entity-returns-other-inserts", scn, "".join(tg2), oB.seq)
     rp = scn.get("rot_product", 0)
     ps = rm.rot_right(prod, rp)
     obs = typed(N, ps)
@@ -196,7 +216,7 @@ def run_unit(unit, st, tier):
     name, fill, ph, variant = arg
     t = kitgen.triple(name)
     for k in ((1, 2, 3) if tier == "quick" else (1, 2, 3, 4)):
-        base = dict(triple=name, fill=fill, ph=ph, k=k, variant=variant)
+        base = dict(triple=name, fill=fill, ph=ph, k=k, variant=variant, reuse_vector=True)
         prod = check(st, base)
         st.scenario("level-ok" if prod else "level-none", None, calls=4)
         if prod is None:
